@@ -105,7 +105,7 @@ func newRemoteAuthorizer(ctx CreationContext, id string, rawConfig map[string]an
 		Payload                  template.Template `mapstructure:"payload"                              validate:"required_without=Endpoint.Headers"` //nolint:lll
 		ResponseHeadersToForward []string          `mapstructure:"forward_response_headers_to_upstream"`
 		CacheTTL                 time.Duration     `mapstructure:"cache_ttl"`
-		Values                   values.Values     `mapstructure:"values"`
+		Values                   values.Values     `mapstructure:"values"                               validate:"dive,required"` //nolint:lll
 	}
 
 	var conf Config
@@ -218,7 +218,7 @@ func (a *remoteAuthorizer) WithConfig(rawConfig map[string]any) (Authorizer, err
 		Expressions              []Expression      `mapstructure:"expressions"                          validate:"dive"`
 		ResponseHeadersToForward []string          `mapstructure:"forward_response_headers_to_upstream"`
 		CacheTTL                 *time.Duration    `mapstructure:"cache_ttl"`
-		Values                   values.Values     `mapstructure:"values"`
+		Values                   values.Values     `mapstructure:"values"                               validate:"dive,required"` //nolint:lll
 	}
 
 	var conf Config
